@@ -485,6 +485,10 @@ def g_dist(ctx, rng, i):
         g.dist(g.Point(*V[0]), poly)
         g.dist(g.Point(*((V[0] + V[1]) / 2)), poly)
         poly.angles
+        off = gen.nonzero_vec(rng, 2, 5)
+        for mp in (poly + g.Point(*off.tolist()), (g.translation(*off.tolist()) * g.rotation(float(rng.uniform(-3, 3)))) * poly):
+            g.dist(_pt(rng, 2, mode), mp)
+            g.dist(g.Point(*c), mp)
     elif kind == 5 and dim == 3:
         V2 = _polygon2d(rng, i // 72)
         o = gen.coords(rng, (3,), 4, "int").astype(float)
@@ -498,6 +502,15 @@ def g_dist(ctx, rng, i):
             g.dist(_pt(rng, 3, mode), poly)
         g.dist(poly, g.Point(*V.mean(axis=0)))
         g.dist(g.Point(*(V.mean(axis=0) + np.cross(e1, e2))), poly)
+        # the same questions for a polygon that was moved out of its plane (objects returned by the library, not freshly constructed ones)
+        off = gen.nonzero_vec(rng, 3, 4)
+        moved = [poly + g.Point(*off.tolist()), g.translation(*off.tolist()) * poly,
+                 (g.translation(*off.tolist()) * g.rotation(float(rng.uniform(-3, 3)), axis=g.Point(*gen.nonzero_vec(rng, 3, 3).tolist()))) * poly]
+        for mp in moved:
+            W = np.asarray(mp.normalized_array)[..., :3].reshape(-1, 3)
+            g.dist(_pt(rng, 3, mode), mp)
+            g.dist(mp, g.Point(*W.mean(axis=0)))
+            g.dist(g.Point(*V.mean(axis=0)), mp)
     elif kind == 6 and dim == 3:
         o = gen.coords(rng, (3,), 3, "int")
         s = rng.integers(1, 4, size=3)
@@ -506,6 +519,10 @@ def g_dist(ctx, rng, i):
             g.dist(_pt(rng, 3, mode), cube)
         g.dist(cube, g.Point(*(o + s / 2)))
         g.dist(g.Point(*o), cube)
+        off = gen.nonzero_vec(rng, 3, 4)
+        moved = g.translation(*off.tolist()) * cube
+        g.dist(_pt(rng, 3, mode), moved)
+        g.dist(g.Point(*o), moved)
     elif kind == 7:
         # collections
         shape = gen.pick(rng, [(3,), (2, 2), (1,), (4,)])
